@@ -358,6 +358,26 @@ func c20Continuation(us []sdk.AccAddress) []c20Op {
 			remember(a, "altborrow", a.LendKeeper.GetUserBorrowIDCounter(c))
 			return "ok:" + u(a.LendKeeper.GetUserLendIDCounter(c)) + "/" + u(a.LendKeeper.GetUserBorrowIDCounter(c))
 		}},
+		{"lend_stable_borrow_asset4", func(a *chain.App, c sdk.Context) string {
+			// stable-rate borrowing is enabled for asset 3 only (BorrowAsset checks the flag of the COLLATERAL asset, keeper.go:629): a
+			// stable borrow against asset 4 must be refused
+			ok0, d0 := c20Deliver(a, c, lendtypes.NewMsgLend(us[4].String(), 4, coin("uasset4", 50000000), 2, 3))
+			if !ok0 {
+				c20Verbose("lend_stable_borrow_asset4 (lend): %s", d0)
+				return "err-lend"
+			}
+			lendID := a.LendKeeper.GetUserLendIDCounter(c)
+			for _, lp := range a.LendKeeper.GetLendPairs(c) {
+				if lp.AssetIn == 4 && lp.AssetOut == 1 && lp.AssetOutPoolID == 2 {
+					ok, d := c20Deliver(a, c, lendtypes.NewMsgBorrow(us[4].String(), lendID, lp.Id, true, coin("ucasset4", 20000000), coin("uasset1", 3000000)))
+					if !ok {
+						c20Verbose("lend_stable_borrow_asset4: %s", d)
+					}
+					return fmt.Sprintf("pair %d interpool %t: %t", lp.Id, lp.IsInterPool, ok)
+				}
+			}
+			return "no-pair"
+		}},
 		{"lend_calc_interest", m(func() sdk.Msg { return lendtypes.NewMsgCalculateInterestAndRewards(us[4].String()) }, nil)},
 		{"lend_close_borrow_lend", func(a *chain.App, c sdk.Context) string {
 			ok1, d1 := c20Deliver(a, c, lendtypes.NewMsgCloseBorrow(us[4].String(), mem[a]["altborrow"]))
